@@ -39,6 +39,7 @@ import (
 	"sort"
 	"strings"
 	"sync"
+	"sync/atomic"
 	"syscall"
 	"time"
 
@@ -218,11 +219,23 @@ func (r *runner) shard(shard int) error {
 					if err := json.Unmarshal([]byte(rest[sp+1:]), &res); err != nil {
 						return fmt.Errorf("bad result line: %v", err)
 					}
+					if (res.Outcome == "hang" || res.Outcome == "leak") && !strings.Contains(res.Detail, "nil channel") && len(r.cases) > 1 {
+						// timing-based verdict: confirm it right away with an isolated re-run under a three
+						// times longer watchdog (on a loaded machine a slow case looks like a hang)
+						if again, err := runOne(r.c, r.cases[idx]); err == nil {
+							if again.Outcome == "ok" {
+								again.SlowOK = true
+							}
+							again.Confirmed = true
+							again.ID = idx
+							res = *again
+						}
+					}
 					r.mu.Lock()
 					r.results[idx] = &res
-					if (res.Outcome == "hang" || res.Outcome == "leak") && !strings.Contains(res.Detail, "nil channel") {
+					if (res.Outcome == "hang" || res.Outcome == "leak") && res.Confirmed {
 						r.slow++
-						if r.slow > 24 && len(r.cases) > 1 {
+						if r.slow > 24 {
 							r.aborted = true
 						}
 					}
@@ -320,10 +333,12 @@ func (r *runner) runAll() error {
 	return nil
 }
 
+var oneSeq atomic.Int64
+
 // runOne re-runs a single case in a fresh child (confirmation of timing-based verdicts, --replay).
 func runOne(c *core.Ctx, cs Case) (*Result, error) {
 	r := &runner{c: c, cases: []Case{cs}, watchdogMS: int(3 * caseWatchdog / time.Millisecond)}
-	if err := r.write(fmt.Sprintf("one-%d", time.Now().UnixNano()), 1); err != nil {
+	if err := r.write(fmt.Sprintf("one-%d-%d", time.Now().UnixNano(), oneSeq.Add(1)), 1); err != nil {
 		return nil, err
 	}
 	if err := r.shard(0); err != nil {
@@ -910,6 +925,11 @@ func run(c *core.Ctx) error {
 	if r.aborted {
 		c.Logf("more than 24 cases hung or leaked goroutines: the remaining cases were not run")
 		c.Note("the run was cut short after 25 hanging / leaking cases; violations are reported for the cases that ran")
+		defer func() {
+			if c.Violations() == 0 {
+				c.Inconclusive("the run was cut short after 25 confirmed hanging / leaking cases and %d cases were not run", c.Count("cases_not_run_after_abort"))
+			}
+		}()
 	}
 
 	// ---- verdicts
@@ -942,6 +962,9 @@ func run(c *core.Ctx) error {
 			res = again
 			r.results[i] = again
 		}
+		if res.SlowOK {
+			c.Add("slow_cases_confirmed_ok", 1)
+		}
 		switch res.Outcome {
 		case "ok":
 		case "harness":
@@ -949,7 +972,7 @@ func run(c *core.Ctx) error {
 			continue
 		default:
 			sig := signature(cs, res)
-			if (res.Outcome == "hang" || res.Outcome == "leak") && !confirmed[sig] && !strings.Contains(res.Detail, "nil channel") {
+			if (res.Outcome == "hang" || res.Outcome == "leak") && !res.Confirmed && !confirmed[sig] && !strings.Contains(res.Detail, "nil channel") {
 				// timing-based verdicts are confirmed by one isolated re-run
 				again, err := runOne(c, *cs)
 				if err != nil {
